@@ -12,8 +12,17 @@ interleaving, every job tree and any number of workers.
   * `proto_deleted_exactly_once`  along every run each step is destroyed at most once, and
                                   exactly once when the pool is quiescent
   * `proto_orig_D24*`, `proto_orig_loop_uaf`   the code as it was found reaches a use-after-free
+
+Part 2: the functional layer (Model/C04Key, C04Classify, C04Sort).
+  * `key_*`                       the 64-bit key helper functions: key order is string order,
+                                  `clz(a ^ b)/8` and `8 - ctz(a)/8` are the LCP contributions the sorter adds
+  * `subjobs_write_disjoint`, `subjobs_order_irrelevant`   bucket ranges are disjoint; the arrays do
+                                  not depend on the order in which the sub-jobs run
+  * OPEN: the end-to-end theorem about `sortM` (statement below)
 -/
 import TlxVerif.Proofs.C04ProtoInv
+import TlxVerif.Proofs.C04Str
+import TlxVerif.Proofs.C04Assemble
 import TlxVerif.Model.C04Sort
 namespace TlxVerif.C04
 
@@ -378,5 +387,83 @@ def fixedDemo : List (Nat × Choice) :=
 example : (run Cfg.fixed (init .big 1) fixedDemo).map
     (fun s => (s.err, s.tasks.all List.isEmpty, s.objs.map (·.alive))) = some (none, true, [false, false]) := by
   decide
+
+/-! ## Part 2: functional layer -/
+
+/-- **Key order is string order.**  Two NUL-free strings of one sort range (common prefix `p`,
+keys read at depth `p.length`): a smaller key means a strictly smaller string. -/
+theorem key_order {p a b : Str} {ka kb : Key} (ha : nulFree (p ++ a)) (hb : nulFree (p ++ b))
+    (hka : getKey? (p ++ a) p.length = some ka) (hkb : getKey? (p ++ b) p.length = some kb) (hlt : ka < kb) :
+    strLe (p ++ a) (p ++ b) = true ∧ p ++ a ≠ p ++ b := key_lt_imp ha hb hka hkb hlt
+
+/-- **`clz(a ^ b) / 8` is the LCP contribution.**  Different keys: the LCP of the two strings is
+`depth + lcpKeyType`, which is what `ps5_sample_sort_lcp`, `MKQSStep::calculate_lcp` and
+`insertion_sort_cache` store at bucket borders. -/
+theorem key_lcp {p a b : Str} {ka kb : Key} (ha : nulFree (p ++ a)) (hb : nulFree (p ++ b))
+    (hka : getKey? (p ++ a) p.length = some ka) (hkb : getKey? (p ++ b) p.length = some kb) (hne : ka ≠ kb) :
+    lcp (p ++ a) (p ++ b) = p.length + lcpKeyType ka kb := key_ne_lcp ha hb hka hkb hne
+
+/-- **Equal keys with a non-zero last byte** (`eq_recurse_`, equal buckets without the `0x80`
+flag): both strings have at least `depth + 8` characters and agree on them, so the recursion
+may continue at `depth + sizeof(key_type)` and never reads behind a terminator. -/
+theorem key_equal_deeper {p a b : Str} {k : Key} (ha : nulFree (p ++ a)) (hb : nulFree (p ++ b))
+    (hka : getKey? (p ++ a) p.length = some k) (hkb : getKey? (p ++ b) p.length = some k) (hlow : lowByte k ≠ 0) :
+    a.take 8 = b.take 8 ∧ 8 ≤ a.length ∧ 8 ≤ b.length := key_eq_deeper ha hb hka hkb hlow
+
+/-- **Equal keys that contain the terminator** (`0x80` flag / `!eq_recurse_`): the strings are
+equal and `lcpKeyDepth` of the key is the number of characters behind `depth`, hence
+`fill_lcp(depth + lcpKeyDepth(key))` stores their full length = their LCP. -/
+theorem key_equal_done {p a b : Str} {k : Key} (ha : nulFree (p ++ a)) (hb : nulFree (p ++ b))
+    (hka : getKey? (p ++ a) p.length = some k) (hkb : getKey? (p ++ b) p.length = some k) (hlow : lowByte k = 0) :
+    p ++ a = p ++ b ∧ lcp (p ++ a) (p ++ b) = p.length + lcpKeyDepth k := by
+  obtain ⟨heq, hlen⟩ := key_eq_done ha hb hka hkb hlow
+  refine ⟨heq, ?_⟩
+  have e1 := getKey_toNat hka
+  simp only [List.drop_left] at e1
+  rw [lcpKeyDepth_eq e1 (nulFree_append_right ha) hlen, ← heq]
+  have : ∀ l : Str, lcp l l = l.length := by
+    intro l; induction l with
+    | nil => rfl
+    | cons c cs ih => simp [lcp, ih]
+  rw [this]; simp
+
+/-- reading a key at a depth inside the string (or at its terminator) stays inside the allocation -/
+theorem key_read_in_bounds {s : Str} {depth : Nat} (h : depth ≤ s.length) : (getKey? s depth).isSome = true :=
+  getKey_isSome h
+
+example : getKey? [0x61, 0x62, 0x63] 1 = some 0x6263000000000000#64 := by decide +kernel
+example : lcpKeyType 0x6162630000000000#64 0x6162640000000000#64 = 2 := by decide +kernel
+example : lcpKeyDepth 0x6162630000000000#64 = 3 := by decide +kernel
+
+/-- **Bucket ranges are disjoint**: the pieces `[bkt[i], bkt[i+1])` handed to the sub-jobs of a
+sort step do not overlap (exclusive prefix sums of the bucket sizes). -/
+theorem subjobs_write_disjoint {α} (results : List (List α)) : (layout 0 results).Pairwise disjointPieces :=
+  layout_disjoint 0 results
+
+/-- **The result does not depend on the order in which the sub-jobs run**: whatever
+permutation of the sub-jobs is executed, the array they leave is the concatenation of the
+per-bucket results. -/
+theorem subjobs_order_irrelevant {α} [Inhabited α] (results : List (List α)) (old : List α)
+    (hold : old.length = results.flatten.length) (order : List (Nat × List α))
+    (hperm : (layout 0 results).Perm order) : applyWrites order old = results.flatten :=
+  subjobs_any_order results old hold order hperm
+
+example : applyWrites [(2, [7, 8]), (0, [5, 6])] [0, 0, 0, 0] = [5, 6, 7, 8] := by decide
+
+/-- what a correct answer for `input` is: permutation, sorted, LCP array of the same length whose
+entries 1.. are the LCPs of neighbours -/
+def SortedLcp (input : List Str) (r : Res) : Prop :=
+  r.out.Perm input ∧ r.out.Pairwise (fun a b => strLe a b = true) ∧ r.lcp.length = r.out.length ∧
+  ∀ i, 0 < i → i < r.out.length → r.lcp[i]? = some (lcp ((r.out[i - 1]?).getD []) ((r.out[i]?).getD []))
+
+/-- the end-to-end statement of the functional layer: for every threshold tuning, big/small
+decision, sample and pivot choice the model returns a correct answer and never reads out of bounds -/
+def sortAll_correct_statement : Prop :=
+  ∀ (env : Env) (fuel : Nat) (strs : List Str) (r : Res), (∀ s ∈ strs, nulFree s) →
+    (sortAll env fuel strs = .ok r → SortedLcp strs r) ∧ sortAll env fuel strs ≠ .error .oob
+-- OPEN: sortAll_correct_statement — proved so far: the key/LCP arithmetic every step relies on (`key_*`),
+--   disjointness and order independence of the sub-job ranges; missing: `build`/`findBkt` = lower-bound
+--   classification, the induction over the recursion (step lemma on the flat LCP pass, MKQS, insertion_sort_cache).
+--   The model is tied to the implementation by the correspondence on order, LCPs and classifier internals.
 
 end TlxVerif.C04
